@@ -173,6 +173,7 @@ class Runner:
         self.last_frame_h = None
         self.display = None
         self.after_fault = False
+        self.pending = ""   # text written to the redirected stdout that has not been ended by a new line yet
         self.dead_screen = False
         self.tall_transient_stop = False
         self.just_drew = False
@@ -317,11 +318,18 @@ class Runner:
                 d.console.log(printed_text)
                 self.twin.log(printed_text)
             elif name == "stdout":
-                if not (self.started and self.spec["redirect"] and op[1].endswith("\n")):
+                if not (self.started and self.spec["redirect"]):
                     return True
-                printed_text = op[1]
+                if not op[1].endswith("\n"):
+                    # a partial line: nothing is shown yet; it is completed by a later write, or shown as a line of its own when the display stops
+                    sys.stdout.write(op[1])
+                    self.pending += op[1]
+                    self.ctx.cls("partial-line-pending")
+                    return self.sync(op, top)
+                printed_text = self.pending + op[1]
+                self.pending = ""
                 sys.stdout.write(op[1])
-                self.twin.print(op[1], end="", markup=False, highlight=False, emoji=False)
+                self.twin.print(printed_text, end="", markup=False, highlight=False, emoji=False)
             elif name == "update":
                 self.rend = list(op[1])
                 if len(op) > 3 and op[3] and getattr(self, "frame_obj", None) is not None:
@@ -373,6 +381,13 @@ class Runner:
             elif name == "stop":
                 if not self.started:
                     return True
+                if self.pending:
+                    # the partial line still pending in the redirected stream appears as a printed line (above the last frame)
+                    self.twin.print(self.pending, markup=False, highlight=False, emoji=False)
+                    rows = self.twin_new_rows()
+                    self.fixed = [fx + rows for fx in self.fixed]
+                    self.pending = ""
+                    self.ctx.cls("partial-line-at-stop")
                 d.stop()
                 self.started = False
                 final = self.frame_now(final=True)
